@@ -509,9 +509,13 @@ func (r *Run) Finish() int {
 		"coverage": cov, "assumptions": r.assume,
 		"wall_s": time.Since(r.start).Seconds(), "violations": len(fresh),
 	}
-	os.MkdirAll(filepath.Join(r.Root, "evidence"), 0o755)
+	evDir := filepath.Join(r.Root, "evidence")
+	if d := os.Getenv("VERIF_EVIDENCE_DIR"); d != "" {
+		evDir = d // used by the mutant / seeded-change self-tests so that they do not overwrite real evidence
+	}
+	os.MkdirAll(evDir, 0o755)
 	b, _ := json.MarshalIndent(ev, "", " ")
-	evPath := filepath.Join(r.Root, "evidence", r.ID+".json")
+	evPath := filepath.Join(evDir, r.ID+".json")
 	if err := os.WriteFile(evPath, append(b, '\n'), 0o644); err != nil {
 		fmt.Fprintln(os.Stderr, "cannot write evidence:", err)
 		return 2
@@ -539,7 +543,11 @@ func (r *Run) Finish() int {
 	if len(fresh) == 0 {
 		return 0
 	}
-	os.MkdirAll(filepath.Join(r.Root, "replays"), 0o755)
+	replayDir := filepath.Join(r.Root, "replays")
+	if d := os.Getenv("VERIF_EVIDENCE_DIR"); d != "" {
+		replayDir = filepath.Join(d, "replays")
+	}
+	os.MkdirAll(replayDir, 0o755)
 	seen := map[string]bool{}
 	printed := 0
 	for _, v := range fresh {
@@ -549,7 +557,7 @@ func (r *Run) Finish() int {
 		h := fnv.New64a()
 		h.Write([]byte(v.Clause))
 		h.Write(v.Case)
-		p := filepath.Join(r.Root, "replays", fmt.Sprintf("%s-%016x.json", r.ID, h.Sum64()))
+		p := filepath.Join(replayDir, fmt.Sprintf("%s-%016x.json", r.ID, h.Sum64()))
 		if seen[p] {
 			continue
 		}
